@@ -243,11 +243,57 @@ def all_cases():
     return out
 
 
+def run_sequence(acc):
+    """every wrapper method, one after the other on ONE wrapper in one
+    process (state kept between calls - caches, shared defaults - must not
+    leak from one result into the next); each result is compared with the raw
+    client's on a fresh client"""
+    from puresnmp import PyWrapper
+
+    value = ("tt", 29)
+    db = build_db(value)
+    ag = ragent.Agent(db)
+    client, _ = world.make_client(creds(), ag.handle)
+    w = PyWrapper(client)
+    seq = [o for o in method_ops(value) if not o[0].startswith("set") and o[0] != "multiset"]
+    seq = seq + list(reversed(seq)) + seq
+    for label, op in seq:
+        ag1 = ragent.Agent(db)
+        c1, _ = world.make_client(creds(), ag1.handle)
+        raw, raw_exc = ops.run_op(c1, op)
+        facts = {"method": label, "family": "sequence on one wrapper", "value": value}
+        violations = []
+        try:
+            got, exc = py_call(w, op), None
+        except drive.HarnessError:
+            raise
+        except Exception as e:  # noqa
+            got, exc = None, e
+        if ops.exc_sig(raw_exc) != ops.exc_sig(exc):
+            violations.append({"kind": "wrapper-and-raw-outcomes-differ", "detail": {**facts, "wrapper_exception": repr(exc)[:200]}, "facts": facts})
+        elif exc is None:
+            leaks = type_leaks(got)
+            want, have = expected_from_raw(op, raw), shape(op, got)
+            if leaks:
+                violations.append({"kind": "non-builtin-type-returned", "detail": {**facts, "leaks": leaks[:4]}, "facts": facts})
+            elif have != want:
+                violations.append({"kind": "differs-from-pythonised-raw-result", "detail": {**facts, "got": repr(have)[:300], "expected": repr(want)[:300]}, "facts": facts})
+        acc.count(evaluations=1, nontrivial=1, states=1, transitions=1, traces=1)
+        acc.outcome("ok" if not violations else "%s/%s" % (label, violations[0]["kind"]))
+        for v in violations[:1]:
+            v["case"] = {"sequence": True}
+            acc.violation(v)
+    acc.sample({"family": "sequence of %d wrapper calls on one wrapper" % len(seq)})
+
+
 def shards(tier):
-    return [{"part": i, "of": 8, "tier": tier} for i in range(8)]
+    return [{"part": i, "of": 8, "tier": tier} for i in range(8)] + [{"sequence": True, "tier": tier}]
 
 
 def run_shard(params, acc):
+    if params.get("sequence"):
+        run_sequence(acc)
+        return
     for label, op, value in all_cases()[params["part"] :: params["of"]]:
         violations, nreq = run_case(label, op, value)
         acc.count(evaluations=1, nontrivial=1, states=1, transitions=max(nreq, 1), traces=1)
@@ -259,6 +305,17 @@ def run_shard(params, acc):
 
 
 def replay(case):
+    if case.get("sequence"):
+        class A:
+            def __init__(self):
+                self.v = []
+            def count(self, **k): pass
+            def outcome(self, *a, **k): pass
+            def sample(self, *a, **k): pass
+            def violation(self, v): self.v.append(v)
+        a = A()
+        run_sequence(a)
+        return a.v
     value = tuple(case["value"])
     if value[0] == "oid":
         value = ("oid", tuple(value[1]))
